@@ -116,3 +116,63 @@ def type_of(filename, explicit=None):
     dot = filename.rfind(".")
     ext = filename[dot:] if dot >= 0 and "/" not in filename[dot:] else ""
     return EXTENSION_TYPE.get(ext, DEFAULT_TYPE)
+
+
+# ---- the same rule for whole paths -------------------------------------------------------------
+# "The file extension" of a path is stated here without any library: the part of the LAST path
+# component from its LAST dot to its end.  Dots in directory components, earlier dots of the file
+# name, './' and '../' do not take part.  The comparison with the four NCBI extensions is exact
+# (lower case, as file names are case-sensitive on the platform the check runs on).
+KNOWN_WORDS = tuple(sorted(e[1:] for e in EXTENSION_TYPE))
+
+
+def path_extension(path):
+    """(judged, extension).  judged is False for a last component that consists of nothing but
+    dots followed by a known extension word ('.fna', '..frn'): a hidden file WITHOUT extension under
+    the os.path.splitext convention, a file with that extension under the suffix convention - the
+    property text does not decide between the two."""
+    base = path.split("/")[-1]
+    dot = base.rfind(".")
+    if dot < 0:
+        return True, ""
+    stem, ext = base[:dot], base[dot:]
+    if stem.strip(".") == "" and ext in EXTENSION_TYPE:
+        return False, ext
+    return True, ext
+
+
+def path_type(path, explicit=None):
+    """Expected sequence type of the records of the file at path, None = not judged."""
+    if explicit is not None:
+        return explicit
+    judged, ext = path_extension(path)
+    if not judged:
+        return None
+    return EXTENSION_TYPE.get(ext, DEFAULT_TYPE)
+
+
+def name_class(path):
+    """The class of file name a path belongs to (names the cause in a signature)."""
+    comps = path.split("/")
+    base, dirs = comps[-1], comps[:-1]
+    _, ext = path_extension(path)
+    stem = base[:len(base) - len(ext)]
+    if ext in EXTENSION_TYPE:
+        if "." in stem:
+            return "known-extension:several-dots-in-name"
+        if any("." in d for d in dirs):
+            return "known-extension:dot-in-directory"
+        return "known-extension"
+    if ext.lower() in EXTENSION_TYPE:
+        return "default-extension:other-case"
+    if any(w in path for w in KNOWN_WORDS):
+        return "default-extension:known-word-elsewhere"
+    return "default-extension"
+
+
+def is_file_path(rel):
+    """A relative path that can name a regular file: not empty, not absolute, last component a
+    real name."""
+    if not rel or rel.startswith("/"):
+        return False
+    return rel.split("/")[-1] not in ("", ".", "..")
